@@ -32,7 +32,18 @@ CONTEXTS = {
     'arg': lambda v: Box(v),
     'kwarg': lambda v: Box(0, tag=v),
     'deep': lambda v: [[{'k': (v,)}]],
+    'dkey': lambda v: {v: 1},
+    'elem-after-equal': lambda v: [_plain(v), v],
 }
+
+
+def _plain(v):
+    """the equal value of the built-in base type (printed just before the instance)"""
+    for b in subcls.BASES:
+        if isinstance(v, b):
+            return b(v)
+    return v
+
 
 
 def unwrap(ctxname, got):
@@ -50,6 +61,10 @@ def unwrap(ctxname, got):
         return got.tag
     if ctxname == 'deep':
         return got[0][0]['k'][0]
+    if ctxname == 'dkey':
+        return list(got)[0]
+    if ctxname == 'elem-after-equal':
+        return got[1]
 
 
 class SubclassCase(pfbase.CfgCase):
@@ -64,6 +79,11 @@ class SubclassCase(pfbase.CfgCase):
             bv = eval(params['base_value'], {'__builtins__': {'float': float, 'frozenset': frozenset, 'set': set}})
             self.inst = self.cls(bv)
         self.ctxname = params['context']
+        if self.ctxname == 'dkey':
+            try:
+                hash(self.inst)
+            except TypeError:
+                self.ctxname = 'sole'       # unhashable instances cannot be keys
         self.value = CONTEXTS[self.ctxname](self.inst)
         self.indent = params.get('indent', 4)
 
